@@ -7,7 +7,7 @@
    A graph isomorphism phi (node list and adjacency lists in ANY order, initial sets given in ANY order)
    that transports the rule tables preserves walks / paths with their lengths / costs, hence the
    characterised outputs. *)
-From EoNV Require Import Prelude Samp Graph EventSIR EventSIRP EventSIRInv EventSIRMain EventSIRChar EventSIRTop
+From EoNV Require Import Prelude Samp Graph EventSIR EventSIRP EventSIRInv EventSIRMain EventSIRChar EventSIRTop EventSIROut EventSIRPred
      Discrete DiscreteP C14xOut.
 From Coq Require Import Permutation Lqa.
 
@@ -365,6 +365,33 @@ Proof.
         destruct D as [D|D], D' as [D'|D']; try congruence.
         -- exfalso. apply X in D'. rewrite D in D'. discriminate.
         -- exfalso. apply X in D. rewrite D' in D. discriminate.
+Qed.
+(* the same at the level of what fast_nonMarkov_SIR returns with return_full_data=True: transmissions() of the copy lists
+   the renamed nodes, each with the same infection time (C11 esir_det_full / esir_det_transmissions) *)
+Theorem esir_transmissions_relabel_invariant tb tb' tmin tmax fuel fuel' :
+  esir_okb g delay dur i0 r0 tmin tmax = true ->
+  (esir_fuel g i0 <= fuel)%nat -> (esir_fuel g' i0' <= fuel')%nat ->
+  exists o cs o' cs' hs hs' trs trs',
+    esir_det tb g delay dur i0 r0 tmin tmax true fuel = Ok (o, cs) /\
+    esir_det tb' g' delay' dur' i0' r0' tmin tmax true fuel' = Ok (o', cs') /\
+    so_full o = Some (mkFull hs trs) /\ so_full o' = Some (mkFull hs' trs') /\
+    (forall v, (exists t a, In (t, a, phi v) trs') <-> (exists t a, In (t, a, v) trs)) /\
+    (forall v t a t' a', In (t, a, v) trs -> In (t', a', phi v) trs' -> t' == t).
+Proof.
+  intros OK F F'. pose proof (esir_okb_iso tmin tmax OK) as OK'.
+  destruct (esir_relabel_invariant tb tb' tmin tmax fuel fuel' OK F F') as (sF & sF' & Hr & Hr' & INF & TM & _).
+  destruct (esir_det_full_ok tb g delay dur i0 r0 tmin tmax true fuel OK F) as (sF1 & o & cs & Hr1 & Hd & _).
+  destruct (esir_det_full_ok tb' g' delay' dur' i0' r0' tmin tmax true fuel' OK' F') as (sF1' & o' & cs' & Hr1' & Hd' & _).
+  rewrite Hr in Hr1. injection Hr1 as <-. rewrite Hr' in Hr1'. injection Hr1' as <-.
+  destruct (EventSIROut.esir_det_transmissions tb g delay dur i0 r0 tmin tmax fuel sF o cs Hr Hd) as (hs & Hf & _).
+  destruct (EventSIROut.esir_det_transmissions tb' g' delay' dur' i0' r0' tmin tmax fuel' sF' o' cs' Hr' Hd') as (hs' & Hf' & _).
+  exists o, cs, o', cs', hs, hs', (rev (tlog sF)), (rev (tlog sF')).
+  split; [exact Hd|]. split; [exact Hd'|]. split; [exact Hf|]. split; [exact Hf'|]. split.
+  - intros v. specialize (INF v). unfold infd in INF.
+    split; intros [t [a H]]; rewrite <- in_rev in H.
+    + destruct (proj1 INF (ex_intro _ t (ex_intro _ a H))) as [t2 [a2 H2]]. exists t2, a2. rewrite <- in_rev. exact H2.
+    + destruct (proj2 INF (ex_intro _ t (ex_intro _ a H))) as [t2 [a2 H2]]. exists t2, a2. rewrite <- in_rev. exact H2.
+  - intros v t a t' a' H H'. rewrite <- in_rev in H. rewrite <- in_rev in H'. apply (TM v t a t' a' H H').
 Qed.
 End ESIR.
 End SimIso.
